@@ -21,7 +21,7 @@ def build(c):
     dims = c.get("dims")
     bc = "".join(dims[a] if dims else (["x", "y", "z"][a] if nd <= 3 else f"x{a}") for a in c["periodic_axes"])
     region = df.Region(p1=p1, p2=p2, dims=dims)
-    mesh = df.Mesh(region=region, n=sh, bc=bc)
+    mesh = df.Mesh(region=region, n=sh, bc=c.get("bc_kw") or bc)
     dt = int if c.get("int_dtype") else float
     arr = np.array([float(F(x)) for x in c["vals"]], dtype=dt).reshape(*sh, c["nvdim"])
     valid = np.array(c["valid"], dtype=bool).reshape(*sh)
@@ -85,11 +85,23 @@ def nd_case(rng, tier):
     pm = rng.choice([0.0, 0.1, 0.3, 0.6])
     valid = [rng.random() >= pm for _ in range(ncell)]
     names = rng.sample(["x", "y", "z", "a", "b", "r", "t", "q", "V", "X", "S", "T", "n"], nd) if (rng.random() < 0.5 or nd > 3) else None
+    bc_kw = None
+    if rng.random() < 0.15:
+        # the keyword boundary conditions name no dimension: every direction stays open for diff, also
+        # dimensions named like one of the keyword's letters
+        per = []
+        bc_kw = rng.choice(["neumann", "dirichlet"])
+        names = rng.sample(sorted(set(bc_kw)) + ["x", "y"], nd)
+    elif nd == 3 and rng.random() < 0.1:
+        # a multi-character dimension name contained in bc is NOT periodic
+        names, per, ax = ["x", "y", "xy"], [0, 1], 2
+        cell[ax] = F(rng.choice([1, 2, 4]), rng.choice([1, 2, 4, 8]))
     vd = rng.sample(["p", "q", "r", "s", "u"], nvdim) if nvdim > 1 and rng.random() < 0.5 else None
     return dict(kind="nd", sh=sh, nvdim=nvdim, ax=ax, order=rng.choice([1, 2]), cell=[g.qs(x) for x in cell],
                 p1=[g.qs(x) for x in p1], periodic_axes=per, restrict=rng.random() < 0.8,
                 vals=[g.qs(v) for v in vals], valid=valid, dims=names, vdims=vd,
-                unit=rng.choice([None, "A/m", "T"]), layout=rng.choice(LAYOUTS), layout_set=rng.random() < 0.5)
+                unit=rng.choice([None, "A/m", "T"]), layout=rng.choice(LAYOUTS), layout_set=rng.random() < 0.5,
+                bc_kw=bc_kw)
 
 
 def generate(rng, tier):
